@@ -80,5 +80,7 @@ class Packet:
                         # github.com/miguelgrinberg/python-engineio/issues/75
                         # for background on this decision
                         raise ValueError
-                except ValueError:
+                except (ValueError, RecursionError):
+                    # text that is not valid JSON (including text nested too
+                    # deeply for the JSON parser) is kept as text
                     self.data = encoded_packet[1:]
